@@ -236,6 +236,15 @@ class Prop(PropBase):
             skw = {"center_freq": 1.4 * u.GHz, "chan_bw": 1 * u.MHz}
         return R.BasebandReader(info["paths"], signal_type=getattr(pb, st), signal_kwargs=skw, lower_sideband=lsb, **kw)
 
+    def _twin(self, spec):
+        """a second, different reader of the same class, sample shape and dtype (another file with other content, or the
+        same file read with the opposite sideband)"""
+        if spec["fmt"] == "repo":
+            if spec["name"] == "sample.vdif":
+                return dict(spec, lsb=not spec.get("lsb", False))
+            return None
+        return dict(spec, seed=spec["seed"] + 7919)
+
     def _desc(self, spec, info):
         """(kind, mode, lsb string) for the model"""
         fmt, name = spec["fmt"], spec.get("name")
@@ -362,10 +371,13 @@ class Prop(PropBase):
                         ops.append(["time_at", rng.choice([0, L, rng.randint(0, L)])])
                     elif r < 0.86:
                         ops.append(["contains", rng.choice([0, L, L, L - 1, -1, rng.randint(0, L)]), rng.choice([0, 0, 1])])
-                    elif r < 0.93:
+                    elif r < 0.90:
                         n = rng.randint(1, min(nmax, L))
                         o = rng.randint(0, L - n)
                         ops.append(["repeat", o, n])
+                    elif r < 0.95:
+                        n = rng.randint(1, min(nmax, L))
+                        ops.append(["joint", rng.randint(0, L - n), n])
                     else:
                         reqs = []
                         for _ in range(16):
@@ -481,6 +493,20 @@ class Prop(PropBase):
                         z3 = r.dask_read(a, n)
                         o["same"] = bool(np.array_equal(z1.data, z2.data) and np.array_equal(z1.data, np.asarray(z3.data.compute())))
                         o["same_stamp"] = bool(abs(X.time_offset_s(z1.start_time, z2.start_time)) == 0)
+                    elif op[0] == "joint":
+                        tw = self._twin(spec)
+                        if tw is None:
+                            o["skip"] = True
+                        else:
+                            import dask
+                            r2 = self._reader(tw, self._file(tw))
+                            e1, e2 = np.asarray(r.read(op[1], op[2]).data), np.asarray(r2.read(op[1], op[2]).data)
+                            z1, z2 = r.dask_read(op[1], op[2]), r2.dask_read(op[1], op[2])
+                            g1, g2 = dask.compute(z1.data, z2.data, scheduler="synchronous")
+                            o["joint_same"] = [bool(np.array_equal(np.asarray(g1), e1)), bool(np.array_equal(np.asarray(g2), e2))]
+                            diff = z1 - z2 if hasattr(z1, "__sub__") else None
+                            o["joint_diff_same"] = bool(np.array_equal(np.asarray((z1.data - z2.data).compute()), e1 - e2))
+                            o["distinct"] = bool(e1.shape == e2.shape and not np.array_equal(e1, e2))
                     elif op[0] == "threads":
                         reqs = op[1]
                         solo = [np.asarray(r.read(a, n).data) for a, n in reqs]
@@ -842,6 +868,14 @@ class Prop(PropBase):
                 lc = self._lifecycle(o.get("events", []), allow_many=True)
                 if lc:
                     return f"repeat: {lc}"
+            elif op[0] == "joint":
+                if o.get("skip"):
+                    continue
+                if "err" in o:
+                    return f"lazy reads of two readers in one Dask graph raised {o['err']}"
+                if not all(o["joint_same"]) or not o["joint_diff_same"]:
+                    return (f"dask_read({op[1]}, {op[2]}) of two different readers computed in one Dask graph returned "
+                            f"{o['joint_same']} (difference ok: {o['joint_diff_same']}) -- each alone equals its eager read")
             elif op[0] == "threads":
                 if "err" in o:
                     return f"concurrent reads raised {o['err']}"
